@@ -2,6 +2,8 @@ import IdspModel.Lemmas.Lp2Main
 import IdspModel.Lemmas.Lp2Core
 import IdspModel.Lemmas.Lp2Bibo
 import IdspModel.Lemmas.Lp2Reach
+import IdspModel.Lemmas.Lp2Wide
+import IdspModel.Lemmas.Lp2Phase
 /-!
 # C10, second-order clause — `Lowpass<2>` with Butterworth gains: error recursion, no overflow, settling
 
@@ -25,6 +27,9 @@ What is proved here (all for BOTH build profiles):
   settled at one level (e.g. after `set()`, `lp2_reset_settled`) and switched to another never panics, its transient
   error stays below `1.25·2^30 + 65537`, and it settles (for ever) to within `4·2^32/k + 4` LSB, both `get()` and the
   returned outputs; it is then settled again, so the level may be switched again;
+* `lp2_level_change_pm2p30_step` — parts 2+3 on the property's FULL level range `±2^30`, every documented pair, for
+  steps `|x − xo| ≤ 3·2^28` (0.75·2^30); start states `Lp2Start` (`set()` states, `lp2_start_reset`, and the states
+  reached at the end of this theorem, so levels may be switched again and again);
 * `lp2_any_input_pm2p29` — part 2 for ALL histories: for EVERY documented Butterworth pair and EVERY input sequence
   with all samples within `±2^29` (arbitrary, not only piecewise constant), starting from a state settled at a level
   within `±2^29`, no update ever panics, wraps or saturates and all outputs stay within `±(1.25·2^30 + 65537)`;
@@ -32,8 +37,11 @@ What is proved here (all for BOTH build profiles):
   whenever the input becomes a constant within `±2^28` the filter (never panicking) settles to within `4·2^32/k + 4`;
 * `lp2_settled_error` — for damping `ζ² = b²/(4a·2^32) ≤ 3/4` the bound `4·2^32/k + 4` holds in the WHOLE equilibrium
   level set (not only in its tight part).
-NOT proved (kept as `def … : Prop`): levels between `2^29` and `2^30` (`lp2_settles_full`) and the 5 % overshoot bound
-(`lp2_overshoot_full`); the transient bound proved here only gives "overshoot ≤ 125 % of the largest step".
+NOT proved (kept as `def … : Prop`): steps larger than `3·2^28` between levels within `±2^30`
+(`lp2_settles_full`; needs the asymmetric first-quadrant/decay argument — groundwork in `Lemmas/Lp2Phase.lean`:
+`lp2_phase1`, `lp2_phase1_len`, `lp2Q_iss_t` — and a treatment of the saturating subtraction, which really clips
+when the step is `2^31`), and the 5 % overshoot bound (`lp2_overshoot_full`); the transient bounds proved here only
+give "the error never exceeds 1.25× the largest admitted step".
 -/
 namespace Idsp
 set_option linter.unusedVariables false
@@ -179,6 +187,57 @@ theorem lp2_level_change_pm2p29 (m : Mode) {k a b x xo : Int} (h : Lp2Butter k a
     exact le_of_mul_le_mul_left h2 (by positivity)
   · exact (lp2_settle_core m h hS st hI).2
 
+/-- the state produced by `set(x)` (zero velocity) is a start state -/
+theorem lp2_start_reset {k a b : Int} (h : Lp2Butter k a b) (x : Int) (hx : inI 32 x = true) :
+    Lp2Start a b x (lpSet x, 0) := by
+  have ⟨hx0, hx1⟩ := inI_iff.mp hx
+  simp only [show (32 : Nat) - 1 = 31 from rfl, Int.reducePow, Int.reduceNeg] at hx0 hx1
+  have : lpSet x = x * 4294967296 := by
+    unfold lpSet; rw [wrapI64_id (by omega) (by omega)]; rfl
+  rw [this]; exact lp2_start_of_set h x
+
+/-- **Parts 2 + 3 on the full level range `±2^30`, steps up to `3·2^28`** (`_step`: the clause allows steps up to
+    `2^31`).  EVERY documented Butterworth pair; new level `|x| ≤ 2^30`, old level `xo` with
+    `|x − xo| ≤ 3·2^28 = 0.75·2^30`; the start state is a start state at `xo` (`Lp2Start`: settled, centred error at
+    most `2^19` LSB — e.g. `set(xo)`, `lp2_start_reset`).  Then in both build profiles
+    (1) no update ever panics, wraps or saturates, and `|get() − x| ≤ 1006698497 < 2^30` at all times;
+    (2) after finitely many updates, for ever: the state is again a start state (at `x`), `|get() − x| ≤ 4·2^32/k + 4`
+        and every returned output satisfies `|y − x| ≤ 4·2^32/k + 4`. -/
+theorem lp2_level_change_pm2p30_step (m : Mode) {k a b x xo : Int} (h : Lp2Butter k a b)
+    (hx0 : -1073741824 ≤ x) (hx1 : x ≤ 1073741824)
+    (hd0 : -805306368 ≤ x - xo) (hd1 : x - xo ≤ 805306368)
+    (st : Int × Int) (hst : Lp2Start a b xo st) :
+    (∀ n, ∃ s0 s1, lp2Iter m x a (-b) n st = .ok (s0, s1, s0 / 4294967296) ∧
+      |s0 / 4294967296 - x| ≤ 1006698497) ∧
+    ∃ N : Nat, ∀ n, N ≤ n → ∃ s0 s1 s0' s1' y,
+      lp2Iter m x a (-b) n st = .ok (s0, s1, s0 / 4294967296) ∧
+      lp2Update m s0 s1 x a (-b) = .ok (s0', s1', y) ∧
+      Lp2Start a b x (s0, s1) ∧
+      k * (|s0 / 4294967296 - x| - 4) ≤ 4 * 4294967296 ∧
+      k * (|y - x| - 4) ≤ 4 * 4294967296 := by
+  have hA := h.adm
+  have ha := h.a_ge
+  have hS := lp2_safe2_W h hx0 hx1
+  have hI := lp2_settled_inv2_W h hd0 hd1 st hst
+  obtain ⟨hrun, N, hN⟩ := lp2_settle_core' m h hS st hI
+  constructor
+  · intro n
+    obtain ⟨hr, hIn⟩ := hrun n
+    refine ⟨_, _, hr, ?_⟩
+    have hba := lp2_b_le_a h
+    have habs : |lp2Eb a b x (lp2Seq x a (-b) n st).1| * 1 ≤ lp2RW a := by
+      rw [mul_one]; exact abs_le.mpr ⟨hIn.2.1, hIn.2.2⟩
+    have hout := lp2_out_abs (a := a) (b := b) (x := x) (s := (lp2Seq x a (-b) n st).1) (c := 1)
+      (R := lp2RW a) (by omega) (by have := h.b_ge; omega) (by norm_num) habs
+    rw [abs_sub_comm]
+    unfold lp2RW at hout
+    have h2 : (2 * a * 4294967296) * |x - (lp2Seq x a (-b) n st).1 / 4294967296|
+        ≤ (2 * a * 4294967296) * 1006698497 := by nlinarith
+    exact le_of_mul_le_mul_left h2 (by positivity)
+  · refine ⟨N, fun n hn => ?_⟩
+    obtain ⟨s0, s1, s0', s1', y, e1, e2, ht, b1, b2⟩ := hN n hn
+    exact ⟨s0, s1, s0', s1', y, e1, e2, lp2_start_of_tight h _ ht, b1, b2⟩
+
 /-- **Part 2 for all histories, `±2^29`: bounded input ⇒ no overflow, bounded output.**  EVERY documented Butterworth
     pair; the start state is settled at some level `|xo| ≤ 2^29` (e.g. `set(xo)` — `lp2_reset_settled` — or the state
     reached in `lp2_level_change_pm2p29`); `xs` is an ARBITRARY input sequence with all samples within `±2^29`
@@ -267,6 +326,19 @@ example : ∃ N : Nat, ∀ n, N ≤ n → ∃ s0 s1 s0' s1' y,
   have hB : Lp2Butter 16777216 65536 23726566 := by constructor <;> norm_num
   obtain ⟨-, N, hN⟩ := lp2_level_change_pm2p29 .checked (x := 536870912) (xo := 0) hB (by norm_num) (by norm_num)
     (by norm_num) (by norm_num) (lpSet 0, 0) (lp2_reset_settled hB.adm 0 (by decide))
+  refine ⟨N, fun n hn => ?_⟩
+  obtain ⟨s0, s1, s0', s1', y, e1, e2, -, -, hy⟩ := hN n hn
+  exact ⟨s0, s1, s0', s1', y, e1, e2, by omega⟩
+
+/-- `set(2^30)` then the constant input `2^30 − 3·2^28` (`k = 2^24`): full level range, never panics, settles -/
+example : ∃ N : Nat, ∀ n, N ≤ n → ∃ s0 s1 s0' s1' y,
+    lp2Iter .checked 268435456 65536 (-23726566) n (lpSet 1073741824, 0) = .ok (s0, s1, s0 / 4294967296) ∧
+    lp2Update .checked s0 s1 268435456 65536 (-23726566) = .ok (s0', s1', y) ∧
+    |y - 268435456| ≤ 1028 := by
+  have hB : Lp2Butter 16777216 65536 23726566 := by constructor <;> norm_num
+  obtain ⟨-, N, hN⟩ := lp2_level_change_pm2p30_step .checked (x := 268435456) (xo := 1073741824) hB
+    (by norm_num) (by norm_num) (by norm_num) (by norm_num) (lpSet 1073741824, 0)
+    (lp2_start_reset hB 1073741824 (by decide))
   refine ⟨N, fun n hn => ?_⟩
   obtain ⟨s0, s1, s0', s1', y, e1, e2, -, -, hy⟩ := hN n hn
   exact ⟨s0, s1, s0', s1', y, e1, e2, by omega⟩
